@@ -311,6 +311,7 @@ KNOBS = {'FIRST_CHANNEL_ARRAY_P': 0.08,     # some unindexed frame types whose f
          'SPECIAL_VALUES_P': 0.02,          # extreme IEEE / integer values among the counter pattern
          'SHARE_IDENT_P': 0.15,             # the same channel identifier text in two frame types (different channel objects)
          'WIDE_TYPE_P': 0.01, 'LONG_TYPE_P': 0.01,
+         'FRAME_SHARE_IDENT_P': 0.3,        # two frame types of one identifier (copy number / origin differ), their records interleaved
          'OTHER_IFLR_P': 0.03,              # records that are not frame data among the frames: unformatted data, end of data, private types
          'NUMBERING_STARTS': (1, 1, 1, 1, 100, 127, 16000, 16370)}     # 16370: the frame number grows from a 2 to a 4 byte UVARI
 
